@@ -149,7 +149,7 @@ func C18(p *load.Prog, r *oblig.Run) {
 		"field-based heap: all instances of a component type share one cell per field", "text-carrying types: string, byte, rune, containers and by-value structs of them, interfaces, pointers to library structs; pointers to repository structs carry nothing (their fields are cells)"}
 	r.Rule("R18.a", "no file text reaches an HTML sink without passing an escaping function", 60)
 	r.Rule("R18.j", "JSON written into HTML keeps encoding/json's HTML escaping", 1)
-	g := cg.New(p, r.Tier == "thorough")
+	g := cg.New(p, false)
 	scope, nroots := htmlSinkScope(p, g)
 	r.Extra["sink_scope_functions"] = len(scope)
 	r.Extra["sink_scope_roots"] = nroots
